@@ -522,6 +522,8 @@ def nd_getattr(I, st, ref, name):
         yield st, simple(_as)
     elif name == "dtype":
         yield st, DtypeVal(dtype_of(e))
+    elif name == "flat":
+        yield st, st.alloc(ListE(list(e.data)))  # iterator over the elements in row-major order
     else:
         raise Unsupported("ndarray attribute " + name)
 
@@ -555,6 +557,23 @@ def make_module(I):
                 raise Unsupported("np.array dtype")
         elif dtype is not None and not (isinstance(dtype, BuiltinClass) and dtype.name == "int"):
             raise Unsupported("np.array dtype")
+        if dt == "O":
+            # dtype=object: when the nested sequence is not rectangular because top-level entries are None / scalars
+            # next to sequences, numpy makes a 1-d object array of the top-level entries themselves
+            try:
+                shape_of(to_nested(I, st, v))
+            except Ragged:
+                items = I.iterate(v, st)
+                def is_seq(x):
+                    return isinstance(x, tuple) or (isinstance(x, Ref) and st.get(x).kind in ("list", "nd"))
+                seqs = [x for x in items if is_seq(x)]
+                if len(seqs) == len(items):
+                    raise Unsupported("object array from sequences that are ragged below the top level")
+                if not all(x is None or is_number(x) or is_seq(x) for x in items):
+                    raise Unsupported("object array element")
+                e = NdE((len(items),), items)
+                e.dtype = "O"
+                return st.alloc(e)
         return mk(I, st, to_nested(I, st, v), dt)
 
     reg("array", array)
@@ -701,6 +720,28 @@ def make_module(I):
         return (st.alloc(e),)
 
     reg("where", _where)
+
+    def _repeat(I, st, v, n):
+        """np.repeat(scalar, n) -> 1-d array of n copies"""
+        if not (is_number(v) or is_nan(v)) or not isinstance(n, int) or isinstance(n, bool) or n < 0:
+            raise Unsupported("np.repeat of a non-scalar or with a symbolic count")
+        return mk(I, st, [v] * n)
+
+    reg("repeat", _repeat)
+
+    def _reshape(I, st, v, shape):
+        sh, d = asnd(I, st, v)
+        shape = tuple(I.iterate(shape, st)) if not isinstance(shape, int) else (shape,)
+        if not all(isinstance(x, int) and not isinstance(x, bool) and x >= 0 for x in shape):
+            raise Unsupported("np.reshape with a symbolic or inferred (-1) dimension")
+        if size(shape) != len(d):
+            return exc("ValueError", "cannot reshape array of size %d into shape %r" % (len(d), shape))
+        e = NdE(shape, d)
+        if isinstance(v, Ref) and st.get(v).kind == "nd" and "dtype" in st.get(v).__dict__:
+            e.dtype = st.get(v).dtype
+        return st.alloc(e)
+
+    reg("reshape", _reshape)
     def _isnan(I, st, v):
         """A1: a real is never NaN; the literal np.nan (kept as an uninterpreted element of float arrays) is"""
         if isinstance(v, Ref) and st.get(v).kind == "nd":
